@@ -1,9 +1,86 @@
-(* C14 — reloading a series' time index changes nothing observable.  Headline theorems only. *)
+(* C14 — reloading a series' time index changes nothing observable.  Headline theorems only.
+   Model: Model/SegCodec.v (serialization.go, format version 2) over Model/Segment.v.
+   encoding/json of the four metadata fields is an abstract pair [enc_meta]/[dec_meta]; the
+   theorems assume it round-trips (hypothesis [meta_roundtrip]) and that the block is shorter than 2^64. *)
 From Pyro Require Import Model.Base Model.Varint Model.Float53 Model.Segment Model.SegCodec
-  Proofs.SegCodecProofs.
+  Proofs.SegStruct Proofs.SegCodecProofs.
 Local Open Scope Z_scope.
 
-Theorem C14_time_roundtrip : forall t, - 2 ^ 63 <= slot_to_unix t < 2 ^ 63 ->
-  time_dec (time_enc t) = Some t /\ (time_enc t < 2 ^ 64)%N.
-Proof. exact time_roundtrip. Qed.
-Print Assumptions C14_time_roundtrip.
+(* every segment reachable by writes (any spans/positions inside one epoch block), retention cuts and
+   SetMetadata is well-formed: on the bucket grid, ten slots per node, root level <= 8 *)
+Theorem C14_reachable_wf : forall K s, reachable K s -> seg_ok K s.
+Proof. exact reachable_ok. Qed.
+Print Assumptions C14_reachable_wf.
+
+(* deserialize (serialize s) = s as model states, for every well-formed non-empty segment whose
+   counters and node times fit in 64 bits *)
+Theorem C14_roundtrip : forall (enc_meta : meta -> bytes) (dec_meta : bytes -> option meta),
+  (forall m, dec_meta (enc_meta m) = Some m) -> (forall m, (Nlen (enc_meta m) < 2 ^ 64)%N) ->
+  forall K s, seg_ok K s -> seg_bounded s -> s_root s <> None ->
+    s_deserialize dec_meta (s_serialize enc_meta s) = Some s.
+Proof. exact codec_roundtrip. Qed.
+Print Assumptions C14_roundtrip.
+
+(* ... in particular for every reachable one *)
+Theorem C14_roundtrip_reachable : forall (enc_meta : meta -> bytes) (dec_meta : bytes -> option meta),
+  (forall m, dec_meta (enc_meta m) = Some m) -> (forall m, (Nlen (enc_meta m) < 2 ^ 64)%N) ->
+  forall K s, reachable K s -> seg_bounded s -> s_root s <> None ->
+    s_deserialize dec_meta (s_serialize enc_meta s) = Some s.
+Proof. intros e d H1 H2 K s Hr. apply (codec_roundtrip e d H1 H2 K). apply reachable_ok. exact Hr. Qed.
+Print Assumptions C14_roundtrip_reachable.
+
+(* hence every later put / get / retention pass / any function of the state (timeline, StartTime,
+   getters) gives the same result on the reloaded copy, and re-saving yields identical bytes *)
+Theorem C14_reload_any : forall (A : Type) (f : segment -> A)
+  (enc_meta : meta -> bytes) (dec_meta : bytes -> option meta),
+  (forall m, dec_meta (enc_meta m) = Some m) -> (forall m, (Nlen (enc_meta m) < 2 ^ 64)%N) ->
+  forall K s, seg_ok K s -> seg_bounded s -> s_root s <> None ->
+    option_map f (s_deserialize dec_meta (s_serialize enc_meta s)) = Some (f s).
+Proof. intros A f e d H1 H2. exact (reload_any e d H1 H2 f). Qed.
+Print Assumptions C14_reload_any.
+
+Theorem C14_reload_put : forall (enc_meta : meta -> bytes) (dec_meta : bytes -> option meta),
+  (forall m, dec_meta (enc_meta m) = Some m) -> (forall m, (Nlen (enc_meta m) < 2 ^ 64)%N) ->
+  forall K s a b smp, seg_ok K s -> seg_bounded s -> s_root s <> None ->
+    option_map (s_put a b smp) (s_deserialize dec_meta (s_serialize enc_meta s)) = Some (s_put a b smp s).
+Proof. intros e d H1 H2 K s a b smp. exact (reload_put e d H1 H2 K s a b smp). Qed.
+Print Assumptions C14_reload_put.
+
+Theorem C14_reload_get : forall (enc_meta : meta -> bytes) (dec_meta : bytes -> option meta),
+  (forall m, dec_meta (enc_meta m) = Some m) -> (forall m, (Nlen (enc_meta m) < 2 ^ 64)%N) ->
+  forall K s a b, seg_ok K s -> seg_bounded s -> s_root s <> None ->
+    option_map (s_get a b) (s_deserialize dec_meta (s_serialize enc_meta s)) = Some (s_get a b s).
+Proof. intros e d H1 H2 K s a b. exact (reload_get e d H1 H2 K s a b). Qed.
+Print Assumptions C14_reload_get.
+
+Theorem C14_reload_delete : forall (enc_meta : meta -> bytes) (dec_meta : bytes -> option meta),
+  (forall m, dec_meta (enc_meta m) = Some m) -> (forall m, (Nlen (enc_meta m) < 2 ^ 64)%N) ->
+  forall K s thr, seg_ok K s -> seg_bounded s -> s_root s <> None ->
+    option_map (s_delete_before thr) (s_deserialize dec_meta (s_serialize enc_meta s)) = Some (s_delete_before thr s).
+Proof. intros e d H1 H2 K s thr. exact (reload_delete e d H1 H2 K s thr). Qed.
+Print Assumptions C14_reload_delete.
+
+Theorem C14_resave_identical : forall (enc_meta : meta -> bytes) (dec_meta : bytes -> option meta),
+  (forall m, dec_meta (enc_meta m) = Some m) -> (forall m, (Nlen (enc_meta m) < 2 ^ 64)%N) ->
+  forall K s, seg_ok K s -> seg_bounded s -> s_root s <> None ->
+    option_map (s_serialize enc_meta) (s_deserialize dec_meta (s_serialize enc_meta s)) = Some (s_serialize enc_meta s).
+Proof. intros e d H1 H2 K s. exact (reload_bytes e d H1 H2 K s). Qed.
+Print Assumptions C14_resave_identical.
+
+(* non-vacuity: a three-level segment built by two writes and a retention cut is reachable, bounded
+   and non-empty, and the codec round-trips on it (with the metadata block taken as given) *)
+Definition ex_seg : segment :=
+  fst (s_put 6321559688 6321559689 7
+        (fst (fst (s_delete_before 6321559700
+          (fst (s_put 6321559690 6321559715 100 s_empty)))))).
+Example C14_nonvacuous :
+  reachable 63 ex_seg /\ seg_bounded ex_seg /\ s_root ex_seg <> None /\
+  s_deserialize (fun _ => Some (s_meta ex_seg)) (s_serialize (fun _ => []) ex_seg) = Some ex_seg.
+Proof.
+  split; [|split; [|split]].
+  - unfold ex_seg. apply reach_put; [apply reach_del; apply reach_put; [apply reach_empty|]|];
+      unfold valid_range, pow10; cbn; lia.
+  - vm_compute. repeat split; try constructor; try exact I; try reflexivity; try discriminate; repeat constructor.
+  - vm_compute. discriminate.
+  - vm_compute. reflexivity.
+Qed.
